@@ -26,10 +26,30 @@ def scratch() -> str:
     """the per-process scratch directory (created on first use, removed at exit)"""
     global _DIR  # pylint: disable=global-statement
     if _DIR is None or not os.path.isdir(_DIR):
-        _DIR = tempfile.mkdtemp(prefix="mc_files_")
+        _sweep()
+        _DIR = tempfile.mkdtemp(prefix=f"mc_files_{os.getpid()}_")
         _MADE.clear()
         atexit.register(shutil.rmtree, _DIR, True)
     return _DIR
+
+
+def _sweep() -> None:
+    """remove scratch directories left by processes that were killed before their atexit handler could run"""
+    root = tempfile.gettempdir()
+    try:
+        names = os.listdir(root)
+    except OSError:
+        return
+    for name in names:
+        parts = name.split("_")
+        if len(parts) < 4 or parts[0] != "mc" or parts[1] != "files" or not parts[2].isdigit():
+            continue
+        try:
+            os.kill(int(parts[2]), 0)
+        except ProcessLookupError:
+            shutil.rmtree(os.path.join(root, name), ignore_errors=True)
+        except OSError:
+            pass
 
 
 def write_tif(name: str, data, dtype="float32", descriptions=None, nodata=None, georef=False) -> str:
